@@ -118,6 +118,12 @@ def run(ck):
         vals = [rng.randint(1, 30) for _ in range(n)]
         groups.append(agree_group(vals, k, rng, ilp=(not q and i % 10 == 0)))
         ck.cat("agreement_groups")
+    for kf in ck.known:      # every known finding's witness is re-executed on every run
+        w = kf.get("witness")
+        if kf.get("status") == "known" and w and w.get("kind") == "meta":
+            evs = [dict(alg="rnp", kind="part", var="base", f=1, vals=list(w["vals"]), k=w["k"])]
+            evs += [dict(alg="rnp", kind="part", var="zeros", f=1, vals=list(w["vals"]) + [0] * z, k=w["k"]) for z in (1, 2)]
+            groups.append({"base": {"vals": w["vals"], "k": w["k"]}, "events": evs, "watchdog": 10})
     traces = core.pmap(drive.run_meta_group, groups, chunksize=1)
     keep = []
     for t in traces:
